@@ -325,6 +325,9 @@ structure ShotPlan where
   path : String
   outcome : HttpOutcome
   invalid : Bool := false
+  /-- `false`: the instance acquired the ammo (an id was consumed) but never fired it (schedule over or run cancelled
+  while waiting, or the shot was discarded on overflow): no `Shoot`, so no sample carries that id -/
+  fired : Bool := true
   deriving Repr, Inhabited
 
 /-- `Provider.Acquire`: `NewGunAmmo(req, ammo.Tag(), p.NextID())`; `GunAmmo.Request`: `sample.SetID(g.id)` -/
@@ -335,7 +338,8 @@ def ShotPlan.toShot (p : ShotPlan) (id : Nat) : HttpShot :=
 acquiring instance `ι` is); the order in which the samples reach the aggregator is some permutation of it. -/
 def runPool {ι : Type} (cfg : AutoTagCfg) : Nat → List (ι × ShotPlan) → List Sample
   | _, [] => []
-  | c, (_, p) :: rest => (shootHttp cfg (p.toShot (nextID c).2)).reports ++ runPool cfg (nextID c).1 rest
+  | c, (_, p) :: rest =>
+    (if p.fired then (shootHttp cfg (p.toShot (nextID c).2)).reports else []) ++ runPool cfg (nextID c).1 rest
 
 /-! ## closed forms of the scenario loops (one sample per step) -/
 
